@@ -503,6 +503,161 @@ void iter_test() {
   }
 }
 
+// =================================================================================================
+// Sequential sweep (C08, C09): containers with 1 / 5 / 8 / 16 buckets and up to `maxn` keys - long lists, many empty
+// buckets between populated ones, several keys per bucket in hash order and key order - filled in a scrambled order,
+// thinned out in one of five patterns by erase(key) / erase(find()) / an erasing traversal, refilled, and finally
+// emptied through it = erase(it).  After every phase contains, find and a full traversal (each element exactly once,
+// with its value; the set in key order) must agree with a reference.
+template <class C, bool IsMap>
+void hm_sweep() {
+  const int maxn = (int)opt("maxn", 16);
+  const int n = 1 + choose(maxn);
+  const int stride = 1 + choose(3);  // keys 0, s, 2s, ... (s = 3: sparse in the buckets)
+  const int how = choose(5);         // which keys go: 0 none, 1 even positions, 2 first half, 3 all but the last, 4 every third
+  const int via = choose(3);         // 0 erase(key), 1 find + erase(iterator), 2 erasing traversal
+  const int refill = choose(2);
+  constexpr int MAXK = 64;
+  C* c = new C();
+  int ref[MAXK * 3];
+  for (int& r : ref) r = -1;
+  auto keyv = [](auto& it) {
+    if constexpr (IsMap) return key_int(it->first);
+    else
+      return *it;
+  };
+  auto valv = [](auto& it) {
+    if constexpr (IsMap) return it->second;
+    else
+      return *it;
+  };
+  auto insert = [&](int k, int v) {
+    if constexpr (IsMap) {
+      switch (k % 4) {
+        case 0: return c->emplace(k, v);
+        case 1: return c->emplace_or_get(k, v).second;
+        case 2: return c->get_or_emplace(k, v).second;
+        default: return c->get_or_emplace_lazy(k, [v] { return v; }).second;
+      }
+    } else
+      return (k & 1) ? c->emplace(k) : c->emplace_or_get(k).second;
+  };
+  auto check_all = [&](const char* phase) {
+    int count = 0;
+    for (int k = 0; k < n * stride + 2; k++) {
+      bool present = ref[k] >= 0;
+      if (c->contains(k) != present) fail("ORACLE", "%s: contains(%d) = %d, reference says %d (n %d stride %d)", phase, k, (int)!present, (int)present, n, stride);
+      auto it = c->find(k);
+      bool found = it != c->end();
+      if (found != present || (found && (keyv(it) != k || valv(it) != ref[k]))) fail("ORACLE", "%s: find(%d) disagrees with the reference value %d", phase, k, ref[k]);
+      count += present;
+    }
+    bool seen[MAXK * 3] = {};
+    int yielded = 0, last = -1;
+    for (auto it = c->begin(); it != c->end(); ++it) {
+      int k = keyv(it);
+      if (k < 0 || k >= MAXK * 3 || ref[k] < 0) fail("ORACLE", "%s: traversal yields key %d, which is not in the container", phase, k);
+      if (seen[k]) fail("ORACLE", "%s: traversal yields key %d twice", phase, k);
+      if (valv(it) != ref[k]) fail("ORACLE", "%s: traversal yields value %d for key %d, expected %d", phase, valv(it), k, ref[k]);
+      if (!IsMap && k <= last) fail("ORACLE", "%s: set traversal is not in key order (%d after %d)", phase, k, last);
+      last = k;
+      seen[k] = true;
+      yielded++;
+    }
+    if (yielded != count) fail("ORACLE", "%s: traversal yields %d elements, the container holds %d (n %d stride %d)", phase, yielded, count, n, stride);
+  };
+  // fill in a scrambled order (position i -> (i * 7 + 3) mod n is a permutation for n not divisible by 7, else use 5)
+  const int mul = n % 7 ? 7 : 5;
+  for (int i = 0; i < n; i++) {
+    int pos = (i * mul + 3) % n;
+    int k = pos * stride, v = IsMap ? 100 + k : k;
+    if (!insert(k, v)) fail("ORACLE", "insertion of the absent key %d failed", k);
+    ref[k] = v;
+    if (insert(k, IsMap ? 7 : k)) fail("ORACLE", "second insertion of key %d succeeded", k);
+  }
+  check_all("after the fill");
+  auto goes = [&](int k) {
+    int pos = k / stride;
+    switch (how) {
+      case 1: return (pos & 1) == 0;
+      case 2: return pos < n / 2;
+      case 3: return pos != n - 1;
+      case 4: return pos % 3 == 0;
+      default: return false;
+    }
+  };
+  if (via == 2) {
+    for (auto it = c->begin(); it != c->end();) {
+      int k = keyv(it);
+      if (k < 0 || k >= MAXK * 3 || ref[k] < 0) fail("ORACLE", "erasing traversal yields key %d, which is not in the container", k);
+      if (goes(k)) {
+        it = c->erase(std::move(it));
+        ref[k] = -1;
+      } else
+        ++it;
+    }
+  } else {
+    for (int pos = n - 1; pos >= 0; pos--) {
+      int k = pos * stride;
+      if (!goes(k)) continue;
+      if (via == 0) {
+        if (!c->erase(k)) fail("ORACLE", "erase of the present key %d failed", k);
+        if (c->erase(k)) fail("ORACLE", "second erase of key %d succeeded", k);
+      } else {
+        auto it = c->find(k);
+        if (it == c->end()) fail("ORACLE", "find of the present key %d failed", k);
+        // erase(iterator) returns an iterator to a following element: it must be a present key (or end)
+        auto nx = c->erase(std::move(it));
+        if (nx != c->end()) {
+          int k2 = keyv(nx);
+          if (k2 == k || k2 < 0 || k2 >= MAXK * 3 || ref[k2] < 0) fail("ORACLE", "erase(iterator) of key %d returned an iterator to key %d", k, k2);
+        }
+      }
+      ref[k] = -1;
+    }
+  }
+  check_all("after the removals");
+  if (refill) {
+    for (int pos = 0; pos < n; pos++) {
+      int k = pos * stride;
+      if (ref[k] >= 0) continue;
+      int v = IsMap ? 300 + k : k;
+      if (!insert(k, v)) fail("ORACLE", "re-insertion of the absent key %d failed", k);
+      ref[k] = v;
+    }
+    check_all("after the refill");
+  }
+  int removed = 0, expected = 0;
+  for (int r : ref) expected += r >= 0;
+  for (auto it = c->begin(); it != c->end();) {
+    int k = keyv(it);
+    if (k < 0 || k >= MAXK * 3 || ref[k] < 0) fail("ORACLE", "final traversal yields key %d, which is not in the container", k);
+    ref[k] = -1;
+    it = c->erase(std::move(it));
+    removed++;
+  }
+  if (removed != expected) fail("ORACLE", "the final erasing traversal removed %d elements, the container held %d", removed, expected);
+  check_all("after the final traversal");
+  if (!insert(stride, IsMap ? 5 : stride)) fail("ORACLE", "insertion into the emptied container failed");
+  ref[stride] = IsMap ? 5 : stride;
+  check_all("at the end");
+  mark_nontrivial();
+  delete c;
+}
+#define REGSW(name, C, IsMap) XMC_TEST_FN("sweep_" name, (&hm_sweep<C, IsMap>), "sequential sweep, " name)
+#define CM_ ,
+REGSW("set_hp", SET<rec::HPs<3>>, false);
+REGSW("set_ebr", SET<rec::EBR>, false);
+REGSW("set_lfrc", SET<rec::LFRC>, false);
+REGSW("map_b1_hp", MAP<rec::HPs<3> CM_ 1 CM_ false CM_ HashIdentity>, true);
+REGSW("map_b5_memo_hp", MAP<rec::HPs<3> CM_ 5 CM_ true CM_ HashIdentity>, true);
+REGSW("map_b8_hp", MAP<rec::HPs<3> CM_ 8 CM_ false CM_ HashIdentity>, true);
+REGSW("map_b8_memo_scr_ebr", MAP<rec::EBR CM_ 8 CM_ true CM_ HashScramble>, true);
+REGSW("map_b16_const_hp", MAP<rec::HPs<3> CM_ 16 CM_ false CM_ HashConst>, true);
+REGSW("map_b16_lfrc", MAP<rec::LFRC CM_ 16 CM_ false CM_ HashIdentity>, true);
+REGSW("map_b64_stamp", MAP<rec::STAMP CM_ 64 CM_ true CM_ HashIdentity>, true);
+REGSW("map_mk_b8_hp", MAPMK<rec::HPs<3> CM_ 8 CM_ false CM_ HashIdentity>, true);
+
 #define REGSET(name, R) XMC_TEST_FN("set_" name, (&setmap_test<SetAdapter<SET<R>>>), "list based set, " name)
 REGSET("hp", rec::HPs<3>);
 REGSET("hpd", rec::HPd<1>);
